@@ -59,7 +59,11 @@ Definition round_size (size round : Z) : Z := (size + round - 1) / round * round
    bit-field (l_off = byte offset of its storage unit, l_bit = bit offset in the unit, l_sz = width) *)
 Record leaf := mkleaf { l_off : Z; l_bit : Z; l_sz : Z }.
 
-Record lay := mklay { raw_size : Z; align : Z; leaves : list leaf }.
+(* what set_type_layout stores in a member's decl: offset (relative to the enclosing aggregate),
+   bit_offset (-1 for non-bit-fields) and width (-1 for non-bit-fields) *)
+Record mrec := mkmrec { m_off : Z; m_bit : Z; m_width : Z }.
+
+Record lay := mklay { raw_size : Z; align : Z; leaves : list leaf; mems : list mrec }.
 
 (* type_size: raw size rounded up to the alignment *)
 Definition type_size (l : lay) : Z :=
@@ -131,14 +135,14 @@ Definition counts_for_align (mk : mkind) : bool :=
   match mk with MBits _ false => false | _ => true end.
 
 (* the body of the member loop for one member whose own layout is [ml] *)
-Definition member_step (is_union : bool) (mk : mkind) (t : ty) (ml : lay) (acc : fstate * list leaf)
-  : fstate * list leaf :=
-  let '(s, ls) := acc in
+Definition member_step (is_union : bool) (mk : mkind) (t : ty) (ml : lay)
+  (acc : fstate * list leaf * list mrec) : fstate * list leaf * list mrec :=
+  let '(s, ls, rs) := acc in
   let member_size := type_size ml in
-  if member_size =? 0 then acc
+  if member_size =? 0 then (s, ls, rs ++ [mkmrec 0 (-1) (-1)])   (* `continue`: decl left untouched *)
   else
     let bits := member_bits mk in
-    if (bits =? 0) && (is_union || (overall s =? 0)) then acc
+    if (bits =? 0) && (is_union || (overall s =? 0)) then (s, ls, rs ++ [mkmrec 0 0 0])
     else
       let s1 := update_field_layout s member_size (align ml) bits in
       let off := offset s1 in
@@ -158,18 +162,18 @@ Definition member_step (is_union : bool) (mk : mkind) (t : ty) (ml : lay) (acc :
         | MBits w false => []
         | MAnon => shift_leaves off (leaves ml)     (* update_members_offset *)
         end in
-      (s2, ls ++ new_leaves).
+      (s2, ls ++ new_leaves, rs ++ [mkmrec off bit_offset bits]).
 
 Definition max_align (mls : list (mkind * lay)) : Z :=
   fold_left (fun a '(mk, ml) => if counts_for_align mk then Z.max a (align ml) else a) mls 1.
 
 Fixpoint c2m_layout (t : ty) : lay :=
   match t with
-  | TBasic k => mklay (basic_type_size k) (basic_type_align k) []
-  | TPtr => mklay 8 8 []
-  | TEnum lo hi => let k := enum_basic_type lo hi in mklay (basic_type_size k) (basic_type_align k) []
-  | TArr n el => let l := c2m_layout el in mklay (type_size l * n) (align l) (leaves l)
-  | TFlex el => let l := c2m_layout el in mklay (type_size l * 1) (align l) []
+  | TBasic k => mklay (basic_type_size k) (basic_type_align k) [] []
+  | TPtr => mklay 8 8 [] []
+  | TEnum lo hi => let k := enum_basic_type lo hi in mklay (basic_type_size k) (basic_type_align k) [] []
+  | TArr n el => let l := c2m_layout el in mklay (type_size l * n) (align l) (leaves l) []
+  | TFlex el => let l := c2m_layout el in mklay (type_size l * 1) (align l) [] []
   | TAgg u ms =>
       let fix members (ms : list (mkind * ty)) : list (mkind * ty * lay) :=
         match ms with
@@ -177,11 +181,11 @@ Fixpoint c2m_layout (t : ty) : lay :=
         | (mk, mt) :: r => (mk, mt, c2m_layout mt) :: members r
         end in
       let mls := members ms in
-      let '(s, ls) :=
-        fold_left (fun acc '(mk, mt, ml) => member_step u mk mt ml acc) mls (init_fstate, []) in
+      let '(s, ls, rs) :=
+        fold_left (fun acc '(mk, mt, ml) => member_step u mk mt ml acc) mls (init_fstate, [], []) in
       mklay (used s)
             (max_align (map (fun '(mk, _, ml) => (mk, ml)) mls))
-            ls
+            ls rs
   end.
 
 Definition c2m_sizeof (t : ty) : Z := type_size (c2m_layout t).
